@@ -178,7 +178,15 @@ type EntrySpec struct {
 	MaxDecisions  int               `json:"max_decisions"`
 }
 
-const repoDir = "/repo"
+// repoDir is the tree under check: /repo. VERIF_REPO points the engine at a
+// scratch worktree instead (used only by tools/try_mutant.sh to try a seeded
+// change without touching /repo while other runs read it).
+var repoDir = func() string {
+	if d := os.Getenv("VERIF_REPO"); d != "" {
+		return d
+	}
+	return "/repo"
+}()
 
 func verifDir() string {
 	if d := os.Getenv("VERIF_DIR"); d != "" {
